@@ -421,3 +421,345 @@ Lemma pr_exists : forall F, exists P, pr F P.
 Proof.
   intros F. destruct (pr_extends F [] (adm_nil F)) as [P [HP _]]. exists P. exact HP.
 Qed.
+
+(* generic shape of pr / sst / stg: a [B]-set that is maximal for the preorder [le] *)
+Definition maxi (B : af -> list nat -> Prop) (le : af -> list nat -> list nat -> Prop)
+  (F : af) (S : list nat) : Prop :=
+  B F S /\ forall S', B F S' -> le F S S' -> le F S' S.
+
+Section Split.
+  Variables U P1 P2 : af.
+  Hypothesis Hp1 : part U P1.
+  Hypothesis Hp2 : part U P2.
+  Hypothesis Hargs : forall a, In a (args U) <-> In a (args P1) \/ In a (args P2).
+  Hypothesis Hdis : forall a, In a (args P1) -> In a (args P2) -> False.
+  Hypothesis Hatt : forall a b, att U a b -> att P1 a b \/ att P2 a b.
+
+  Local Notation r1 := (restr (args P1)).
+  Local Notation r2 := (restr (args P2)).
+
+  Lemma split_cases : forall S a, incl S (args U) -> In a S -> In a (r1 S) \/ In a (r2 S).
+  Proof.
+    intros S a Hi Ha. destruct (proj1 (Hargs a) (Hi a Ha)) as [H|H]; [left|right];
+      apply in_restr; split; assumption.
+  Qed.
+
+  Lemma incl_split : forall S T, incl S (args U) ->
+    (incl S T <-> incl (r1 S) (r1 T) /\ incl (r2 S) (r2 T)).
+  Proof.
+    intros S T Hi. split.
+    - intros H. split; apply restr_mono; exact H.
+    - intros [H1 H2] a Ha. destruct (split_cases S a Hi Ha) as [H|H].
+      + apply H1 in H. apply in_restr in H. tauto.
+      + apply H2 in H. apply in_restr in H. tauto.
+  Qed.
+
+  Lemma app_incl_split : forall S1 S2,
+    incl S1 (args P1) -> incl S2 (args P2) -> incl (S1 ++ S2) (args U).
+  Proof.
+    intros S1 S2 H1 H2 a Ha. apply Hargs. apply in_app_or in Ha.
+    destruct Ha as [Ha|Ha]; [left; apply H1 | right; apply H2]; exact Ha.
+  Qed.
+
+  Lemma r1_app : forall S1 S2, incl S1 (args P1) -> incl S2 (args P2) -> seteq (r1 (S1 ++ S2)) S1.
+  Proof.
+    intros S1 S2 H1 H2 a. rewrite in_restr, in_app_iff. split.
+    - intros [Ha [H|H]]; [exact H|]. exfalso. exact (Hdis a Ha (H2 a H)).
+    - intros H. split; [apply H1; exact H | left; exact H].
+  Qed.
+
+  Lemma r2_app : forall S1 S2, incl S1 (args P1) -> incl S2 (args P2) -> seteq (r2 (S1 ++ S2)) S2.
+  Proof.
+    intros S1 S2 H1 H2 a. rewrite in_restr, in_app_iff. split.
+    - intros [Ha [H|H]]; [|exact H]. exfalso. exact (Hdis a (H1 a H) Ha).
+    - intros H. split; [apply H2; exact H | right; exact H].
+  Qed.
+
+  Lemma cf_split : forall S, cf U S <-> cf P1 (r1 S) /\ cf P2 (r2 S).
+  Proof.
+    intros S. split.
+    - intros H. split; [apply (cf_part U P1 Hp1) | apply (cf_part U P2 Hp2)]; exact H.
+    - intros [H1 H2] a b Ha Hb Hab. destruct (Hatt a b Hab) as [H|H].
+      + destruct (proj1 Hp1 a b H) as [Ia Ib].
+        apply (H1 a b); [apply in_restr; split; assumption | apply in_restr; split; assumption | exact H].
+      + destruct (proj1 Hp2 a b H) as [Ia Ib].
+        apply (H2 a b); [apply in_restr; split; assumption | apply in_restr; split; assumption | exact H].
+  Qed.
+
+  Lemma cfs_split : forall S, cfs U S <-> incl S (args U) /\ cfs P1 (r1 S) /\ cfs P2 (r2 S).
+  Proof.
+    intros S. unfold cfs. rewrite (cf_split S). split.
+    - intros [Hi [H1 H2]]. split; [exact Hi|]. split; (split; [apply restr_incl_l | assumption]).
+    - intros [Hi [[_ H1] [_ H2]]]. split; [exact Hi|]. split; assumption.
+  Qed.
+
+  Lemma adm_split : forall S, adm U S <-> incl S (args U) /\ adm P1 (r1 S) /\ adm P2 (r2 S).
+  Proof.
+    intros S. unfold adm. split.
+    - intros [Hi [Hc Hd]]. apply cf_split in Hc. destruct Hc as [Hc1 Hc2].
+      split; [exact Hi|]. split.
+      + split; [apply restr_incl_l|]. split; [exact Hc1|]. intros a Ha.
+        apply in_restr in Ha. destruct Ha as [Ha1 Ha2].
+        apply (defends_part U P1 Hp1 S a Ha1). apply Hd. exact Ha2.
+      + split; [apply restr_incl_l|]. split; [exact Hc2|]. intros a Ha.
+        apply in_restr in Ha. destruct Ha as [Ha1 Ha2].
+        apply (defends_part U P2 Hp2 S a Ha1). apply Hd. exact Ha2.
+    - intros [Hi [[_ [Hc1 Hd1]] [_ [Hc2 Hd2]]]]. split; [exact Hi|].
+      split; [apply cf_split; split; assumption|].
+      intros a Ha. destruct (proj1 (Hargs a) (Hi a Ha)) as [H|H].
+      + apply (defends_part U P1 Hp1 S a H). apply Hd1. apply in_restr. split; assumption.
+      + apply (defends_part U P2 Hp2 S a H). apply Hd2. apply in_restr. split; assumption.
+  Qed.
+
+  Lemma co_split : forall S, co U S <-> incl S (args U) /\ co P1 (r1 S) /\ co P2 (r2 S).
+  Proof.
+    intros S. unfold co. rewrite (adm_split S). split.
+    - intros [[Hi [Ha1 Ha2]] Hc]. split; [exact Hi|]. split.
+      + split; [exact Ha1|]. intros a Ha Hd. apply in_restr. split; [exact Ha|].
+        apply Hc; [apply Hargs; left; exact Ha|].
+        apply (defends_part U P1 Hp1 S a Ha). exact Hd.
+      + split; [exact Ha2|]. intros a Ha Hd. apply in_restr. split; [exact Ha|].
+        apply Hc; [apply Hargs; right; exact Ha|].
+        apply (defends_part U P2 Hp2 S a Ha). exact Hd.
+    - intros [Hi [[Ha1 Hc1] [Ha2 Hc2]]]. split; [split; [exact Hi | split; assumption]|].
+      intros a Ha Hd. destruct (proj1 (Hargs a) Ha) as [H|H].
+      + apply (restr_incl_r (args P1) S). apply Hc1; [exact H|].
+        apply (defends_part U P1 Hp1 S a H). exact Hd.
+      + apply (restr_incl_r (args P2) S). apply Hc2; [exact H|].
+        apply (defends_part U P2 Hp2 S a H). exact Hd.
+  Qed.
+
+  Lemma st_split : forall S, st U S <-> incl S (args U) /\ st P1 (r1 S) /\ st P2 (r2 S).
+  Proof.
+    intros S. unfold st. split.
+    - intros [Hi [Hc Hs]]. apply cf_split in Hc. destruct Hc as [Hc1 Hc2].
+      split; [exact Hi|]. split.
+      + split; [apply restr_incl_l|]. split; [exact Hc1|]. intros a Ha Hn.
+        destruct (Hs a) as [b [Hb Hba]].
+        * apply Hargs. left. exact Ha.
+        * intros HaS. apply Hn. apply in_restr. split; assumption.
+        * assert (Hba' : att P1 b a) by (apply (proj2 (proj2 Hp1)); [exact Hba | right; exact Ha]).
+          exists b. split; [|exact Hba']. apply in_restr. split; [|exact Hb].
+          exact (proj1 (proj1 Hp1 b a Hba')).
+      + split; [apply restr_incl_l|]. split; [exact Hc2|]. intros a Ha Hn.
+        destruct (Hs a) as [b [Hb Hba]].
+        * apply Hargs. right. exact Ha.
+        * intros HaS. apply Hn. apply in_restr. split; assumption.
+        * assert (Hba' : att P2 b a) by (apply (proj2 (proj2 Hp2)); [exact Hba | right; exact Ha]).
+          exists b. split; [|exact Hba']. apply in_restr. split; [|exact Hb].
+          exact (proj1 (proj1 Hp2 b a Hba')).
+    - intros [Hi [[_ [Hc1 Hs1]] [_ [Hc2 Hs2]]]]. split; [exact Hi|].
+      split; [apply cf_split; split; assumption|].
+      intros a Ha Hn. destruct (proj1 (Hargs a) Ha) as [H|H].
+      + destruct (Hs1 a H) as [b [Hb Hba]].
+        * intros Hr. apply Hn. apply (restr_incl_r _ _ _ Hr).
+        * exists b. split; [apply (restr_incl_r _ _ _ Hb) | apply (proj1 (proj2 Hp1)); exact Hba].
+      + destruct (Hs2 a H) as [b [Hb Hba]].
+        * intros Hr. apply Hn. apply (restr_incl_r _ _ _ Hr).
+        * exists b. split; [apply (restr_incl_r _ _ _ Hb) | apply (proj1 (proj2 Hp2)); exact Hba].
+  Qed.
+
+  Lemma range_incl_split : forall S S',
+    range_incl U S S' <-> range_incl P1 (r1 S) (r1 S') /\ range_incl P2 (r2 S) (r2 S').
+  Proof.
+    intros S S'. unfold range_incl. split.
+    - intros H. split; intros a Ha Hr.
+      + apply (in_range_part U P1 Hp1 S' a Ha). apply H; [apply Hargs; left; exact Ha|].
+        apply (in_range_part U P1 Hp1 S a Ha). exact Hr.
+      + apply (in_range_part U P2 Hp2 S' a Ha). apply H; [apply Hargs; right; exact Ha|].
+        apply (in_range_part U P2 Hp2 S a Ha). exact Hr.
+    - intros [H1 H2] a Ha Hr. destruct (proj1 (Hargs a) Ha) as [H|H].
+      + apply (in_range_part U P1 Hp1 S' a H). apply H1; [exact H|].
+        apply (in_range_part U P1 Hp1 S a H). exact Hr.
+      + apply (in_range_part U P2 Hp2 S' a H). apply H2; [exact H|].
+        apply (in_range_part U P2 Hp2 S a H). exact Hr.
+  Qed.
+
+  (* gluing for any base family that splits *)
+  Lemma glue_split : forall (B : af -> list nat -> Prop),
+    (forall F S, B F S -> incl S (args F)) ->
+    (forall F S T, seteq S T -> B F S -> B F T) ->
+    (forall S, B U S <-> incl S (args U) /\ B P1 (r1 S) /\ B P2 (r2 S)) ->
+    forall S1 S2, B P1 S1 -> B P2 S2 -> B U (S1 ++ S2).
+  Proof.
+    intros B Bincl Bseteq Bsplit S1 S2 H1 H2.
+    pose proof (Bincl _ _ H1) as I1. pose proof (Bincl _ _ H2) as I2.
+    apply Bsplit. split; [apply app_incl_split; assumption|]. split.
+    - apply (Bseteq P1 S1); [apply seteq_sym; apply r1_app; assumption | exact H1].
+    - apply (Bseteq P2 S2); [apply seteq_sym; apply r2_app; assumption | exact H2].
+  Qed.
+
+  Lemma maxi_split : forall (B : af -> list nat -> Prop) (le : af -> list nat -> list nat -> Prop),
+    (forall F S, B F S -> incl S (args F)) ->
+    (forall F S T, seteq S T -> B F S -> B F T) ->
+    (forall S, B U S <-> incl S (args U) /\ B P1 (r1 S) /\ B P2 (r2 S)) ->
+    (forall F S T X, seteq S T -> le F S X -> le F T X) ->
+    (forall F S T X, seteq S T -> le F X S -> le F X T) ->
+    (forall F S, le F S S) ->
+    (forall S S', incl S (args U) -> incl S' (args U) ->
+       (le U S S' <-> le P1 (r1 S) (r1 S') /\ le P2 (r2 S) (r2 S'))) ->
+    forall S, maxi B le U S <-> incl S (args U) /\ maxi B le P1 (r1 S) /\ maxi B le P2 (r2 S).
+  Proof.
+    intros B le Bincl Bseteq Bsplit le_l le_r le_refl le_split S. unfold maxi. split.
+    - intros [HB Hm]. pose proof (proj1 (Bsplit S) HB) as [Hi [HB1 HB2]].
+      split; [exact Hi|]. split.
+      + split; [exact HB1|]. intros S1' HS1' Hle.
+        pose proof (Bincl _ _ HS1') as I1. pose proof (restr_incl_l (args P2) S) as I2.
+        pose proof (glue_split B Bincl Bseteq Bsplit S1' (r2 S) HS1' HB2) as HT.
+        pose proof (app_incl_split S1' (r2 S) I1 I2) as HTi.
+        pose proof (r1_app S1' (r2 S) I1 I2) as E1. pose proof (r2_app S1' (r2 S) I1 I2) as E2.
+        assert (Hle' : le U S (S1' ++ r2 S)).
+        { apply (le_split S _ Hi HTi). split.
+          - apply (le_r P1 S1'); [apply seteq_sym; exact E1 | exact Hle].
+          - apply (le_r P2 (r2 S)); [apply seteq_sym; exact E2 | apply le_refl]. }
+        pose proof (proj1 (le_split _ S HTi Hi) (Hm _ HT Hle')) as [Hr _].
+        apply (le_l P1 (r1 (S1' ++ r2 S))); [exact E1 | exact Hr].
+      + split; [exact HB2|]. intros S2' HS2' Hle.
+        pose proof (Bincl _ _ HS2') as I2. pose proof (restr_incl_l (args P1) S) as I1.
+        pose proof (glue_split B Bincl Bseteq Bsplit (r1 S) S2' HB1 HS2') as HT.
+        pose proof (app_incl_split (r1 S) S2' I1 I2) as HTi.
+        pose proof (r1_app (r1 S) S2' I1 I2) as E1. pose proof (r2_app (r1 S) S2' I1 I2) as E2.
+        assert (Hle' : le U S (r1 S ++ S2')).
+        { apply (le_split S _ Hi HTi). split.
+          - apply (le_r P1 (r1 S)); [apply seteq_sym; exact E1 | apply le_refl].
+          - apply (le_r P2 S2'); [apply seteq_sym; exact E2 | exact Hle]. }
+        pose proof (proj1 (le_split _ S HTi Hi) (Hm _ HT Hle')) as [_ Hr].
+        apply (le_l P2 (r2 (r1 S ++ S2'))); [exact E2 | exact Hr].
+    - intros [Hi [[HB1 Hm1] [HB2 Hm2]]]. split.
+      + apply Bsplit. split; [exact Hi|]. split; assumption.
+      + intros S' HS' Hle. pose proof (proj1 (Bsplit S') HS') as [Hi' [HB1' HB2']].
+        pose proof (proj1 (le_split S S' Hi Hi') Hle) as [Hl1 Hl2].
+        apply (le_split S' S Hi' Hi). split; [apply Hm1 | apply Hm2]; assumption.
+  Qed.
+
+  Lemma pr_split : forall S, pr U S <-> incl S (args U) /\ pr P1 (r1 S) /\ pr P2 (r2 S).
+  Proof.
+    intros S.
+    apply (maxi_split adm (fun _ S T => incl S T) adm_incl adm_seteq adm_split).
+    - intros _ S0 T X E H. exact (seteq_incl_l S0 T X E H).
+    - intros _ S0 T X E H. exact (seteq_incl_r S0 T X E H).
+    - intros _ S0. apply incl_refl.
+    - intros S0 S' Hi _. apply incl_split. exact Hi.
+  Qed.
+
+  Lemma sst_split : forall S, sst U S <-> incl S (args U) /\ sst P1 (r1 S) /\ sst P2 (r2 S).
+  Proof.
+    intros S.
+    apply (maxi_split co range_incl co_incl co_seteq co_split).
+    - intros F S0 T X E H. exact (range_incl_seteq_l F S0 T X E H).
+    - intros F S0 T X E H. exact (range_incl_seteq_r F S0 T X E H).
+    - intros F S0 a _ H. exact H.
+    - intros S0 S' _ _. apply range_incl_split.
+  Qed.
+
+  Lemma stg_split : forall S, stg U S <-> incl S (args U) /\ stg P1 (r1 S) /\ stg P2 (r2 S).
+  Proof.
+    intros S.
+    apply (maxi_split cfs range_incl cfs_incl cfs_seteq cfs_split).
+    - intros F S0 T X E H. exact (range_incl_seteq_l F S0 T X E H).
+    - intros F S0 T X E H. exact (range_incl_seteq_r F S0 T X E H).
+    - intros F S0 a _ H. exact H.
+    - intros S0 S' _ _. apply range_incl_split.
+  Qed.
+
+  Lemma gr_split : forall S, gr U S <-> incl S (args U) /\ gr P1 (r1 S) /\ gr P2 (r2 S).
+  Proof.
+    intros S. unfold gr. split.
+    - intros [Hc Hm]. pose proof (proj1 (co_split S) Hc) as [Hi [Hc1 Hc2]].
+      split; [exact Hi|]. split.
+      + split; [exact Hc1|]. intros S1' HS1'.
+        pose proof (Hm _ (glue_split co co_incl co_seteq co_split S1' (r2 S) HS1' Hc2)) as Hsub.
+        intros a Ha. apply in_restr in Ha. destruct Ha as [Ha1 HaS].
+        apply Hsub in HaS. apply in_app_or in HaS. destruct HaS as [H|H]; [exact H|].
+        exfalso. apply in_restr in H. exact (Hdis a Ha1 (proj1 H)).
+      + split; [exact Hc2|]. intros S2' HS2'.
+        pose proof (Hm _ (glue_split co co_incl co_seteq co_split (r1 S) S2' Hc1 HS2')) as Hsub.
+        intros a Ha. apply in_restr in Ha. destruct Ha as [Ha2 HaS].
+        apply Hsub in HaS. apply in_app_or in HaS. destruct HaS as [H|H]; [|exact H].
+        exfalso. apply in_restr in H. exact (Hdis a (proj1 H) Ha2).
+    - intros [Hi [[Hc1 Hm1] [Hc2 Hm2]]]. split.
+      + apply co_split. split; [exact Hi|]. split; assumption.
+      + intros S' HS'. pose proof (proj1 (co_split S') HS') as [_ [Hc1' Hc2']].
+        apply (incl_split S S' Hi). split; [apply Hm1 | apply Hm2]; assumption.
+  Qed.
+
+  Lemma idl_split : forall S, idl U S <-> incl S (args U) /\ idl P1 (r1 S) /\ idl P2 (r2 S).
+  Proof.
+    intros S. unfold idl. split.
+    - intros [Ha [Hp Hm]]. pose proof (proj1 (adm_split S) Ha) as [Hi [Ha1 Ha2]].
+      split; [exact Hi|]. split.
+      + split; [exact Ha1|]. split.
+        * intros Q1 HQ1. destruct (pr_exists P2) as [Q2 HQ2].
+          pose proof (glue_split pr (fun F S0 H => adm_incl F S0 (proj1 H)) pr_seteq pr_split
+                        Q1 Q2 HQ1 HQ2) as HQ.
+          intros a Har. apply in_restr in Har. destruct Har as [Ha1' HaS].
+          apply (Hp _ HQ) in HaS. apply in_app_or in HaS. destruct HaS as [H|H]; [exact H|].
+          exfalso. exact (Hdis a Ha1' (adm_incl P2 Q2 (proj1 HQ2) a H)).
+        * intros S1' HS1' Hall.
+          pose proof (glue_split adm adm_incl adm_seteq adm_split S1' (r2 S) HS1' Ha2) as HT.
+          assert (HTp : forall Q, pr U Q -> incl (S1' ++ r2 S) Q).
+          { intros Q HQ. pose proof (proj1 (pr_split Q) HQ) as [_ [HQ1 _]].
+            intros a Hin. apply in_app_or in Hin. destruct Hin as [H|H].
+            - apply (restr_incl_r (args P1) Q). apply (Hall _ HQ1). exact H.
+            - apply (Hp Q HQ). apply (restr_incl_r _ _ _ H). }
+          pose proof (Hm _ HT HTp) as Hsub. intros a HaS1. apply in_restr.
+          split; [apply (adm_incl P1 S1' HS1'); exact HaS1|].
+          apply Hsub. apply in_or_app. left. exact HaS1.
+      + split; [exact Ha2|]. split.
+        * intros Q2 HQ2. destruct (pr_exists P1) as [Q1 HQ1].
+          pose proof (glue_split pr (fun F S0 H => adm_incl F S0 (proj1 H)) pr_seteq pr_split
+                        Q1 Q2 HQ1 HQ2) as HQ.
+          intros a Har. apply in_restr in Har. destruct Har as [Ha2' HaS].
+          apply (Hp _ HQ) in HaS. apply in_app_or in HaS. destruct HaS as [H|H]; [|exact H].
+          exfalso. exact (Hdis a (adm_incl P1 Q1 (proj1 HQ1) a H) Ha2').
+        * intros S2' HS2' Hall.
+          pose proof (glue_split adm adm_incl adm_seteq adm_split (r1 S) S2' Ha1 HS2') as HT.
+          assert (HTp : forall Q, pr U Q -> incl (r1 S ++ S2') Q).
+          { intros Q HQ. pose proof (proj1 (pr_split Q) HQ) as [_ [_ HQ2]].
+            intros a Hin. apply in_app_or in Hin. destruct Hin as [H|H].
+            - apply (Hp Q HQ). apply (restr_incl_r _ _ _ H).
+            - apply (restr_incl_r (args P2) Q). apply (Hall _ HQ2). exact H. }
+          pose proof (Hm _ HT HTp) as Hsub. intros a HaS2. apply in_restr.
+          split; [apply (adm_incl P2 S2' HS2'); exact HaS2|].
+          apply Hsub. apply in_or_app. right. exact HaS2.
+    - intros [Hi [[Ha1 [Hp1' Hm1]] [Ha2 [Hp2' Hm2]]]]. split; [|split].
+      + apply adm_split. split; [exact Hi|]. split; assumption.
+      + intros Q HQ. pose proof (proj1 (pr_split Q) HQ) as [_ [HQ1 HQ2]].
+        apply (incl_split S Q Hi). split.
+        * intros a Ha. apply in_restr. split; [apply (restr_incl_l _ _ _ Ha)|].
+          apply (restr_incl_r (args P1) Q). apply (Hp1' _ HQ1). exact Ha.
+        * intros a Ha. apply in_restr. split; [apply (restr_incl_l _ _ _ Ha)|].
+          apply (restr_incl_r (args P2) Q). apply (Hp2' _ HQ2). exact Ha.
+      + intros S' HS' Hall. pose proof (proj1 (adm_split S') HS') as [Hi' [Ha1' Ha2']].
+        apply (incl_split S' S Hi'). split.
+        * intros a Ha. apply in_restr. split; [apply (restr_incl_l _ _ _ Ha)|].
+          apply (restr_incl_r (args P1) S). apply (Hm1 _ Ha1'); [|exact Ha].
+          intros Q1 HQ1. destruct (pr_exists P2) as [Q2 HQ2].
+          pose proof (glue_split pr (fun F S0 H => adm_incl F S0 (proj1 H)) pr_seteq pr_split
+                        Q1 Q2 HQ1 HQ2) as HQ.
+          intros b Hb. apply in_restr in Hb. destruct Hb as [Hb1 HbS].
+          apply (Hall _ HQ) in HbS. apply in_app_or in HbS. destruct HbS as [H|H]; [exact H|].
+          exfalso. exact (Hdis b Hb1 (adm_incl P2 Q2 (proj1 HQ2) b H)).
+        * intros a Ha. apply in_restr. split; [apply (restr_incl_l _ _ _ Ha)|].
+          apply (restr_incl_r (args P2) S). apply (Hm2 _ Ha2'); [|exact Ha].
+          intros Q2 HQ2. destruct (pr_exists P1) as [Q1 HQ1].
+          pose proof (glue_split pr (fun F S0 H => adm_incl F S0 (proj1 H)) pr_seteq pr_split
+                        Q1 Q2 HQ1 HQ2) as HQ.
+          intros b Hb. apply in_restr in Hb. destruct Hb as [Hb2 HbS].
+          apply (Hall _ HQ) in HbS. apply in_app_or in HbS. destruct HbS as [H|H]; [|exact H].
+          exfalso. exact (Hdis b (adm_incl P1 Q1 (proj1 HQ1) b H) Hb2).
+  Qed.
+
+  Theorem ext_split : forall s S,
+    ext s U S <-> incl S (args U) /\ ext s P1 (r1 S) /\ ext s P2 (r2 S).
+  Proof.
+    intros s S. destruct s; cbn [ext].
+    - apply gr_split.
+    - apply co_split.
+    - apply pr_split.
+    - apply st_split.
+    - apply sst_split.
+    - apply stg_split.
+    - apply idl_split.
+  Qed.
+End Split.
